@@ -398,6 +398,9 @@ impl datagram_pipe::Sink for IcmpSink {
 
 struct RawPacketStream {
     inner: AsyncFd<libc::c_int>,
+    /// The TTL is a property of the socket, which is shared by all the clients:
+    /// setting it and sending the packet must not interleave with another send
+    send_lock: Mutex<()>,
 }
 
 impl RawPacketStream {
@@ -432,12 +435,16 @@ impl RawPacketStream {
                 libc::close(fd);
             })?;
 
-            Ok(Self { inner: socket })
+            Ok(Self {
+                inner: socket,
+                send_lock: Mutex::new(()),
+            })
         }
     }
 
     pub async fn send_to(&self, dst: IpAddr, ttl: u8, packet: &Bytes) -> io::Result<()> {
         let guard = self.inner.writable().await?;
+        let _send_lock = self.send_lock.lock().unwrap();
         net_utils::set_socket_ttl(*guard.get_inner(), dst.is_ipv4(), ttl)?;
 
         let (sockaddr, sockaddr_len) = net_utils::socket_addr_to_libc(&SocketAddr::from((dst, 0)));
